@@ -2,6 +2,7 @@ import HcipyVerif.Lemmas.FftPipeline
 import HcipyVerif.Lemmas.FourierC02
 import HcipyVerif.Lemmas.FourierC02R4
 import HcipyVerif.Lemmas.ZoomN
+import HcipyVerif.Lemmas.Nft
 
 /-!
 # C02 — Fourier forward/backward are inverse, adjoint and energy-consistent
@@ -422,6 +423,25 @@ theorem mft_adjoint_1d (Nx Nu : ℕ) (x u : ℕ → ℝ) (win wout : Weights ℂ
     wout.get hwout X Y
   simp only [expE_conj, neg_neg] at h
   exact h
+
+/-- **NaiveFourierTransform: `backward` is the adjoint of `forward`** for the code models of both
+paths (precomputed matrices: `nftForwardMat`/`nftBackwardMat`; on the fly: `nftForwardFly`/
+`nftBackwardFly`), arbitrary point sets in any dimension, per-point weights (output weights
+real). -/
+theorem naive_adjoint (n m : ℕ) (us xs : List (ℕ → ℝ)) (win wout : ℕ → ℂ)
+    (hwout : ∀ k, conj (wout k) = wout k) (X Y : ℕ → ℂ) :
+    (∑ k ∈ range m, conj (Y k) * nftForwardMat expE n us xs win X k * wout k
+      = ∑ j ∈ range n, conj (nftBackwardMat expE m us xs wout Y j) * X j * win j) ∧
+    (∑ k ∈ range m, conj (Y k) * nftForwardFly expE n us xs win X k * wout k
+      = ∑ j ∈ range n, conj (nftBackwardFly expE m us xs wout Y j) * X j * win j) := by
+  have h := adjoint_sum_finset (range n) (range m)
+    (fun k j => expE (-(dotCoords us xs k j))) win wout hwout X Y
+  simp only [expE_conj, neg_neg] at h
+  constructor
+  · simp only [nft_forward_mat_eq_sum, nft_backward_mat_eq_sum]
+    exact h
+  · simp only [nft_forward_fly_eq_sum, nft_backward_fly_eq_sum]
+    exact h
 
 /-- hypothesis bundle for one ZoomFFT axis: non-empty grids and FFT lengths without wrap-around
 (`next_fast_len(n + m - 1) ≥ n + m - 1` for both CZTs) -/
